@@ -248,6 +248,30 @@ func runC09(o *Out, rng *Rng, tier string, replay string) {
 	}
 	o.FlushCases("C09", "From Coq Require Import ZArith List.\nFrom Flap Require Import Run.RunPromises.\nImport ListNotations.\nOpen Scope Z_scope.",
 		"list (list pop)", "p_mismatches 0%nat", 16)
+	// the same clauses through Engine.Propose / Engine.Make and the travellers table: several travellers
+	// whose records share a table iterator, daily updates between the proposals
+	ne := 12
+	if tier == "thorough" {
+		ne = 120
+	} else if tier == "search" {
+		ne = 40
+	}
+	wd := filepath.Join(o.dir, "dbs")
+	for c := 0; c < ne; c++ {
+		r := rng.Fork()
+		var s *engSession
+		if c%3 == 2 {
+			s = genProtocol(r, wd, false, "C09", -1)
+		} else {
+			s = genEngine(r, wd, "C09", engCfg{nTrav: r.Range(2, 8), days: r.Range(8, 30), promises: 1 + r.Intn(2), samePrefix: true})
+		}
+		keepFails(o, s, "C09")
+		o.CountN("engine_proposals", s.stat["proposals"])
+		o.CountN("engine_makes_ok", s.stat["makes_ok"])
+		o.AddCase(List(s.coq), s.stat["makes_ok"] > 1, s.ops)
+		s.close()
+	}
+	engFlush(o, "C09E")
 }
 
 func runC10(o *Out, rng *Rng, tier string, replay string) {
@@ -257,7 +281,15 @@ func runC10(o *Out, rng *Rng, tier string, replay string) {
 	for c := 0; c < n; c++ {
 		r := rng.Fork()
 		cfg := engCfg{nTrav: r.Range(1, 5), days: r.Range(8, 30), promises: 1 + r.Intn(2)}
-		s := genEngine(r, wd, "C10", cfg)
+		var s *engSession
+		if c%5 == 3 {
+			// proposals made while the promise correction holds accumulated values (kept promises used in debt)
+			bits := []int{0x40, 0x60, 0x50, 0x20}[(c/5)%4]
+			s = genProtocol(r, wd, false, "C10", bits)
+			o.Count(fmt.Sprintf("protocol_history_option_bits_%#x", bits))
+		} else {
+			s = genEngine(r, wd, "C10", cfg)
+		}
 		keepFails(o, s, "C10")
 		engNote(o, s)
 		refused := 0
